@@ -15,8 +15,9 @@ class Obj:
 
 
 class Script:
-    def __init__(self, prog, rng):
+    def __init__(self, prog, rng, lang="c"):
         self.prog = prog
+        self.lang = lang
         self.r = rng
         self.objs = []
         self.steps = []
@@ -107,11 +108,11 @@ class Script:
                 args = [self.value(a, "cbarg") for a in t[1]]
                 ret = None if t[2] == ("unit",) else self.value(t[2], "cbret")
                 inv.append((args, ret))
-            return {"cb": self.cb_counter, "inv": inv, "destructor": r.random() < 0.8}
+            return {"cb": self.cb_counter, "inv": inv, "destructor": r.random() < 0.8 or self.lang == "cpp"}
         if k == "write":
             nch = r.choice([0, 1, 2, 3])
             chunks = [r.choice(CHUNKS) for _ in range(nch)]
-            mode = r.choice(["buffer", "buffer", "fixed"])
+            mode = r.choice(["buffer", "buffer", "fixed"]) if self.lang == "c" else "buffer"
             return {"chunks": chunks, "mode": mode, "cap": r.choice([0, 1, 4, 16]), "size": r.choice([1, 2, 4, 8, 16, 64])}
         raise ValueError(t)
 
@@ -290,6 +291,18 @@ class Script:
                 if h in muts or (is_mut and h in used):
                     return self.call_retry(owner, m, n, force_self)
                 (muts if is_mut else used).append(h)
+        if self.lang == "cpp" and force_args is None:
+            direct = [pn for pn, pt in m.params if pt[0] == "str" and pt[1] == "utf8"]
+            risky = any(pt[0] in ("oslice", "ostr", "cb") or (pt[0] == "opt" and pt[1][0] in ("oslice", "ostr")) for _, pt in m.params)
+            if direct and not risky and r.random() < 0.3:
+                bad = r.choice(direct)
+                args[bad] = {"data": r.choice([b"\xff", b"ok\xc3", b"\xed\xa0\x80", b"a\x80b", b"\xf4\x90\x80\x80", b"\xc0\xaf"]), "null": False}
+                self.counts[m.abi_name] = n          # Rust is never reached: the per-method call counter does not advance
+                step = {"kind": "call", "owner": owner, "m": m, "n": n, "args": args, "ret": None, "rejected": True, "created": [],
+                        "expect": [("C", "RET %s#- UTF8ERR" % m.abi_name)]}
+                self.steps.append(step)
+                self.expected.append("RET %s#- UTF8ERR" % m.abi_name)
+                return step
         ret = self.ret_value(m.ret, m, args) if force_ret is None else force_ret
         if m.script is None:
             m.script = {"rets": [], "effects": []}
@@ -324,11 +337,22 @@ class Script:
         for pn, pt in m.params:
             if pt[0] == "cb" and args[pn]["destructor"]:
                 lines.append(("C", "CBDROP %d" % args[pn]["cb"]))
-        lines.append(("C", "RET %s#%d %s" % (m.abi_name, n, self.canon_ret(m.ret, ret, m, args))))
+        wparams = [args[pn] for pn, pt in m.params if pt[0] == "write"]
+        if self.lang == "cpp" and wparams:
+            text = '"' + "".join(c.encode("utf-8").hex() for c in wparams[0]["chunks"]) + '"'
+            if m.ret == ("unit",):
+                rc = text
+            elif ret[0] == "ok":
+                rc = "O(%s)" % text
+            else:
+                rc = self.canon_ret(m.ret, ret, m, args)
+            lines.append(("C", "RET %s#%d %s" % (m.abi_name, n, rc)))
+        else:
+            lines.append(("C", "RET %s#%d %s" % (m.abi_name, n, self.canon_ret(m.ret, ret, m, args))))
         for pn, pt in m.params:
             if pt[0] == "slice" and pt[2]:
                 lines.append(("C", "MUT %s %s" % (pn, self.canon(pt, {"items": [mutate(pt[1], x) for x in args[pn]["items"]]}))))
-            if pt[0] == "write":
+            if pt[0] == "write" and self.lang == "c":
                 lines.append(("C", "WR %s" % write_expect(args[pn])))
         m.script["rets"].append(ret)
         m.script["effects"].append(effects)
